@@ -84,6 +84,7 @@ class Sched(object):
         self.prio = {}
         self.pct_changes = set()
         self.call_count = 0
+        self.work_cap_hit = None
         self.count_calls = False
 
     # ------------------------------------------------------------------ logging / probes
@@ -111,6 +112,8 @@ class Sched(object):
         th._sim_name = name or ('t%d' % th._sim_tid)
         th._sim_exc = None
         th._sim_hold = 0
+        th._sim_calls = 0
+        th._sim_call_cap = 0
         self.threads.append(th)
         if self.policy == 'pct':
             self.prio[th._sim_tid] = 1000 + self.tape.draw(1000, 'prio')
@@ -327,6 +330,17 @@ class Sched(object):
         if event == 'call':
             if self.count_calls:
                 self.call_count += 1
+                c = self.current
+                if c is not None:
+                    c._sim_calls += 1
+                    if c._sim_call_cap and c._sim_calls > c._sim_call_cap:
+                        # bounded-work oracle (C08): this thread has executed far more calls than its
+                        # input can justify; end the run here instead of hanging the simulation
+                        c._sim_call_cap = 0
+                        self.work_cap_hit = (c._sim_tid, c._sim_calls, frame.f_code.co_name)
+                        self.log('workcap', c._sim_tid)
+                        self._end('WORK_CAP', 'thread %d exceeded its call budget in %s' % (c._sim_tid, frame.f_code.co_name))
+                        self._park_forever()
             if frame.f_code in self.traced_codes:
                 return self._local_trace
         return None
